@@ -111,7 +111,7 @@ func C03(r *core.Report) {
 		seen[f.Key+"/0"] = true
 		r.OK("C03.R0", "source:"+f.Key, posP(r, f.Pos()), "cache of unverified lossy lookup results")
 	}
-	r.Floor("C03.R0", 7)
+	r.Floor("C03.R0", 4)
 	readersImmutableAfterConstruction(r, "C03.R5")
 	nWrappers, nConsumers, nProbes := 0, 0, 0
 	okeyUses := map[string]int{}
